@@ -23,6 +23,7 @@ EXPLANATION = (
     "port is not Faulty (master-only ports never own Ebest, hence never get S1). ROLE-6: every construction of "
     "RecommendedState::S1 is a result row conditional on whole-record equality of the two BestAnnounceMessage "
     "parameters, and that equality (PartialEq of BestAnnounceMessage) compares message and receiving port identity."
+    " ROLE-6 also requires BestAnnounceMessage.identity to be the receiving port's own identity. ROLE-8: port_state is written only inside set_forced_port_state."
 )
 NOT_DECIDED = "'at most one port is slave at any moment' (depends on the run-time equality Ebest == Erbest of one port only)"
 
